@@ -19,14 +19,14 @@ theorem pop1_push (st : Array Value) (v : Value) : pop1 (st.push v) = some (v, s
     below the arguments, no global and no heap object is touched -/
 theorem C12_call_enters (s : VM) (st : Array Value) (fip nl argc ip' : Nat)
     (hs : s.stack = st.push (.fn fip nl)) (h1 : argc ≤ nl) (h2 : st.size + nl ≤ STACK_LIMIT)
-    (h3 : s.frames.length + 1 < STACK_LIMIT) (h4 : argc ≤ st.size) :
+    (h3 : s.depth + 1 < STACK_LIMIT) (h4 : argc ≤ st.size) :
     exec (.call argc) ip' s = .next { s with
       stack := st ++ Array.replicate (nl - argc) .null,
-      frames := { ip := ip', bp := s.bp } :: s.frames,
+      frames := { ip := ip', bp := s.bp } :: s.frames, depth := s.depth + 1,
       ip := fip, bp := st.size - argc } := by
   simp only [exec, hs, pop1_push]
   have a1 : ¬ argc > nl := by omega
-  have a2 : ¬ (st.size + nl > STACK_LIMIT ∨ s.frames.length + 1 ≥ STACK_LIMIT) := by omega
+  have a2 : ¬ (st.size + nl > STACK_LIMIT ∨ s.depth + 1 ≥ STACK_LIMIT) := by omega
   have a3 : ¬ st.size < argc := by omega
   simp [a1, a2, a3]
 
@@ -69,12 +69,40 @@ theorem C12_call_non_function (s : VM) (st : Array Value) (i : Int) (argc ip' : 
 theorem C12_return_restores (s : VM) (fr : Frame) (rest : List Frame) (v : Value) (extra : List Value)
     (hf : s.frames = fr :: rest) (hb : s.bp ≤ s.stack.size) :
     ∃ m, doReturn s v extra = .next { s with
-      stack := (s.stack.extract 0 s.bp).push v, frames := rest, ip := fr.ip, bp := fr.bp, mem := m } := by
+      stack := (s.stack.extract 0 s.bp).push v, frames := rest, depth := s.depth - 1, ip := fr.ip, bp := fr.bp, mem := m } := by
   unfold doReturn
   rw [hf]
   have : ¬ s.stack.size < s.bp := by omega
   simp only [this, ↓reduceIte]
   exact ⟨_, rfl⟩
+
+/-- the cached depth IS the number of suspended callers: true at the start of a run and kept by every
+    instruction (only `Call` and the two returns touch either), so the O(1) frame-limit test of the
+    model is the `frames.len()` test of vm.rs -/
+theorem C12_depth_is_frames (c : Code) (s s' : VM) (h : s.depth = s.frames.length) (hs : step c s = .next s') :
+    s'.depth = s'.frames.length := by
+  unfold step at hs
+  cases hd : decodeAt c s.ip with
+  | none => simp [hd] at hs
+  | some i =>
+    simp only [hd] at hs
+    have hret : ∀ (t : VM) (v : Value) (ex : List Value), t.depth = t.frames.length → doReturn t v ex = .next s' → s'.depth = s'.frames.length := by
+      intro t v ex ht hdr
+      unfold doReturn at hdr
+      cases hf : t.frames with
+      | nil => simp [hf] at hdr
+      | cons fr rest =>
+        simp only [hf] at hdr
+        split at hdr
+        · cases hdr
+        · injection hdr with hdr; subst hdr; simp [ht, hf]
+    cases i <;> simp only [exec] at hs
+    all_goals try (injection hs with hs; subst hs; exact h)
+    all_goals try (repeat' split at hs) <;> (first | (injection hs with hs; subst hs; simp [h]) | cases hs | skip)
+    all_goals try (exact hret _ _ _ h hs)
+    all_goals try (rename_i hp; exact hret _ _ _ (by simpa using h) hs)
+
+theorem C12_depth_at_start (prev : VM) (bc : Bytecode) : (prev.start bc).depth = (prev.start bc).frames.length := rfl
 
 /-- what the caller had on the stack below the callee's base pointer is still there, unchanged,
     after the return -/
